@@ -79,6 +79,7 @@ type Gen struct {
 	freshNames  map[string]bool
 	blockingOps []string
 	curSplits   []string
+	cellClosure map[string]*closureVal // address of a function-typed variable -> the closure stored in it
 	arrSync     map[string][2]string
 	tparamTypes map[string]*types.TypeParam
 }
